@@ -140,6 +140,12 @@ func (f *Frame) inline(callee *ssa.Function, fc *FuncContract, args []Val, free 
 		entryHeap: f.entryHeap, callStack: append(append([]*ssa.Function{}, f.callStack...), f.fn),
 		closures: f.closures, frameMS: f.frameMS, dctx: f.dctx,
 	}
+	if _, isDefer := ins.(*ssa.Defer); !isDefer {
+		// recover() stops a panic only when called DIRECTLY by the deferred
+		// function; in a function called from it, it returns nil
+		sub.dctx = nil
+		sub.noRecover = true
+	}
 	for i, p := range callee.Params {
 		if i < len(args) {
 			sub.env[p] = args[i]
@@ -979,10 +985,19 @@ func (f *Frame) builtin(b *ssa.Builtin, ins ssa.CallInstruction, st State) (Stat
 		// recover() inside a deferred call: returns the panic value and stops the
 		// panic; nil when the function is not panicking.  The supported idiom calls
 		// recover() unconditionally at the start of the deferred function.
+		if f.dctx == nil && f.noRecover {
+			return st, Val{T: f.w.Sorts.Zero(SIface)}
+		}
 		if f.dctx == nil {
 			// verified standalone: whether the caller is panicking is unknown, so the
 			// result is an arbitrary interface value (sound over-approximation)
-			return st, Val{T: vc.Fresh("recovered", SIface)}
+			if f.recoveredVal.IsZero() {
+				f.recoveredVal = vc.Fresh("recovered", SIface)
+				for _, fact := range f.w.staticTypeFacts(types.NewInterfaceType(nil, nil), f.recoveredVal) {
+					vc.Assume(fact)
+				}
+			}
+			return st, Val{T: f.recoveredVal}
 		}
 		if ins.Block().Index != 0 {
 			f.fail("conditional recover() is outside the subset")
